@@ -326,6 +326,28 @@ fn run(line: &str) -> String {
             let f = f.vh_finalize();
             format!("{:e} {} {}", f.area(), fv(f.centroid()), fv(f.normal()))
         }
+        "clip_init_cell" => {
+            // clip_init_cell anchor width g q rot -> vertices (dual, loc) of the initial cell of g clipped by the bisector towards q;
+            // the vertex array is rotated by `rot` before clipping
+            let anchor = a.v();
+            let width = a.v();
+            let g = a.v();
+            let q = a.v();
+            let rot = a.u();
+            let b = vh::Boundary::cuboid(anchor, width, false, Dimensionality::ThreeD);
+            let gens = vec![vh::generator_new(0, g, Dimensionality::ThreeD), vh::generator_new(1, q, Dimensionality::ThreeD)];
+            let mut cell = ConvexCell::vh_init(g, 0, &b);
+            let n = cell.vertices.len();
+            cell.vertices.rotate_left(rot % n);
+            let dx = g - q;
+            let dist = dx.length();
+            cell.vh_clip_by_plane(HalfSpace::new(dx / dist, 0.5 * (g + q), Some(1), None), &gens, &b);
+            let mut out = format!("{}", cell.vertices.len());
+            for v in &cell.vertices {
+                out += &format!(" {} {} {} {}", v.dual[0], v.dual[1], v.dual[2], fv(v.loc));
+            }
+            out
+        }
         "space_cells" => {
             // space_cells anchor width max_cell_width -> cdim, then per cell: loc width
             let sp = vh::space::SpaceHook::new(a.v(), a.v(), a.f());
